@@ -69,6 +69,58 @@ def one_program(pid, tier, name, multi, tk, callers, order="KS"):
     return dict(name=name, multi=multi, tk=tk, callers=callers, dist=dist, gen=gen, scheds=scheds, lead=lead)
 
 
+def conformance(pid, models, runs):
+    """Trace validation: the events every run logged are checked, per program, against Sync.tla (Trace_SyncConf.tla)."""
+    import glob
+    import subprocess
+    prog_of = {r["h"]: r["program"] for r in runs}
+    by_prog = {}
+    for f in sorted(glob.glob(os.path.join(vlib.WORK, "%s_runs" % pid, "s*", "trace.ndjson"))):
+        for l in open(f):
+            if not l.strip():
+                continue
+            h = int(re.search(r'"h":\s*(\d+)', l).group(1))
+            by_prog.setdefault(prog_of.get(h, "?"), []).append(l)
+    mby = {m["name"]: m for m in models}
+
+    def one(name):
+        m = mby[name]
+        wd = vlib.workdir("%s_conf_%s" % (pid, re.sub(r"[^A-Za-z0-9_]", "_", name)))
+        mod = "MC_SyncConf_%s" % re.sub(r"[^A-Za-z0-9_]", "_", name)
+        with open(os.path.join(wd, mod + ".tla"), "w") as f:
+            f.write("---- MODULE %s ----\nEXTENDS Trace_SyncConf\nProgramsDef == %s\n====\n" % (mod, tla_seq(m["callers"])))
+        nen = sum(c.count("enable") for c in m["callers"]) + (1 if m["tk"] else 0)
+        with open(os.path.join(wd, mod + ".cfg"), "w") as f:
+            f.write("SPECIFICATION ConfSpec\nCONSTANTS\n Programs <- ProgramsDef\n Multi = %s\n InitTicker = %s\n UpdateOrder = \"KS\"\n MaxTickers = %d\n"
+                    "POSTCONDITION ConfPost\nCHECK_DEADLOCK FALSE\n" % ("TRUE" if m["multi"] else "FALSE", "TRUE" if m["tk"] else "FALSE", max(1, nen)))
+        tr = os.path.join(wd, "trace.ndjson")
+        with open(tr, "w") as f:
+            f.writelines(by_prog[name])
+        out = os.path.join(wd, "conf.out")
+        env = dict(os.environ, TRACE=tr, JAVA_TOOL_OPTIONS="-Xss1g -Dtlc2.tool.queue.IStateQueue=StateDeque")
+        cmd = ["java", "-XX:+UseParallelGC", "-Xmx2g", "-DTLA-Library=" + vlib.SPEC, "-cp", vlib.JARS, "tlc2.TLC", "-workers", "1", "-metadir", os.path.join(wd, "meta"),
+               "-noGenerateSpecTE", "-config", os.path.join(wd, mod + ".cfg"), os.path.join(wd, mod + ".tla")]
+        with open(out, "w") as f:
+            try:
+                subprocess.run(cmd, stdout=f, stderr=subprocess.STDOUT, timeout=900, env=env, cwd=wd, preexec_fn=vlib._die_with_parent)
+            except subprocess.TimeoutExpired:
+                raise vlib.ToolError("conformance monitor timed out on %s" % name)
+        vs = list(vlib.extract(out, "CONFORMANCE"))
+        if not vs:
+            raise vlib.ToolError("conformance monitor produced nothing for %s; see %s\n%s" % (name, out, vlib.tail_errors(open(out, errors="replace").read())))
+        v = json.loads(vs[-1])
+        v["program"] = name
+        return v
+
+    names = [n for n in by_prog if n in mby]
+    with cf.ThreadPoolExecutor(max_workers=8) as ex:
+        res = list(ex.map(one, names))
+    tot = dict(runs=sum(r["runs"] for r in res), conform=sum(r["conform"] for r in res), events=sum(r["events"] for r in res))
+    tot["not_conforming"] = [dict(program=r["program"], runs=r["runs"], conform=r["conform"], first=r["first"][:2]) for r in res if r["conform"] != r["runs"]][:10]
+    vlib.log("conformance %s: %d of %d runs (%d events) are behaviours of Sync.tla" % (pid, tot["conform"], tot["runs"], tot["events"]))
+    return tot
+
+
 def prog_json(p, sched):
     return {"setup": {"multi": p["multi"], "bars": 1, "ticker": [1] if p["tk"] else []},
             "threads": [[{"op": c, "b": 1} for c in caller] for caller in p["callers"]],
@@ -94,7 +146,7 @@ def c08(pid, tier, seed):
         if m["lead"]:
             leads.append((m, m["lead"]))
             runs.append(dict(prog_json(m, m["lead"]["schedule"]), lead=m["lead"]["invariant"]))
-    bad, st, total = vlib.replay_and_judge("%s_runs" % pid, runs, "sync", "Trace_Sync", shards=8)
+    bad, st, total = vlib.replay_and_judge("%s_runs" % pid, runs, "sync", "Trace_Sync", shards=8, keep_traces=True)
     byh = {r["h"]: r for r in runs}
     fails = []
     for v in bad:
@@ -109,12 +161,13 @@ def c08(pid, tier, seed):
         lead_notes.append({"program": m["name"], "model_invariant": lead["invariant"], "reproduced_on_code": bool(hit)})
     if st.get("runs", 0) == 0 or st.get("joins", 0) == 0 or st.get("ticks", 0) == 0:
         raise vlib.ToolError("vacuous run: %s" % st)
+    conf = conformance(pid, models, runs)
     fails.sort(key=lambda x: x["n"])
     coverage = dict(states=states, transitions=trans, traces_validated_against_impl=len(runs), records_validated=total,
                     samples=[{"program": runs[0]["program"], "threads": runs[0]["threads"], "schedule": runs[0]["schedule"]}],
                     clause_counts=st, programs=[{"name": m["name"], "callers": m["callers"], "multi": m["multi"], "ticker": m["tk"], "model_states": m["dist"],
                                                  "schedules": len(m["scheds"])} for m in models][:60],
-                    model_leads=lead_notes,
+                    model_leads=lead_notes, trace_conformance=conf,
                     rule="per program TLC explores all interleavings of Sync.tla at lock/notify/spawn/join/wait granularity and checks NoDeadlock, NoTimeoutDependence, SlotOK, CleanEnd; the shortest "
                          "schedule to every reachable model state is replayed on the real code under the controlled scheduler (hooks) and judged by Trace_Sync", exhaustive=False)
     return dict(level="model_checking", coverage=coverage, failures=fails,
